@@ -32,18 +32,18 @@ S_QUICK = [
     ("ksihttp_ui_expl_both", shape("ksi+http", (1, 1), 0, 2, 2, 2, 1, 0), (2, 2, 0), 0, (1, 1, 1, 0)),
     ("ksihttps_quad_expl_id", shape("ksi+https", None, 1, 0, 3, 1, 0, 1), (1, 0, 1), 0, (0, 0, 0, 1)),
     ("ksihttp_ui_expl_key_nopath", shape("ksi+http", (1, 2), 0, 2, 5, 0, 1, 0), (0, 1, 1), 0, None),
-    ("ksihttp_v6", shape("ksi+http", (1, 1), 2, 3, 2, 2), (0, 0, 0), 1, (0, 0, 1, 0)),
-    ("ksi_v6_emptyuser", shape("ksi", (0, 1), 2, 3, 4, 2, 0, 1), (0, 0, 1), 0, None),
+    ("ksihttp_v6", shape("ksi+http", (1, 1), 2, 3, 2, 2), (0, 0, 0), 0, (0, 0, 1, 0)),
     ("tcp_ui", shape("ksi+tcp", (2, 1), 0, 3, 4, 0), (0, 0, 0), 1, (0, 0, 0, 0)),
     ("tcp_quad_expl", shape("ksi+tcp", None, 1, 0, 5, 2), (1, 1, 1), 0, (1, 0, 1, 1)),
-    ("tcp_v6_ui_expl_id", shape("ksi+tcp", (1, 1), 2, 3, 1, 0), (1, 0, 0), 0, None),
     ("file_path", shape("file", None, 3, 0, 0, 3), (1, 1, 0), 0, (0, 0, 0, 0)),
-    ("file_path_ext", shape("file", None, 3, 0, 0, 2), (0, 0, 1), 0, None),
     ("plainhttp_ui_query_nopath", shape("http", (1, 0), 0, 3, 3, 0, 2, 0), (0, 0, 0), 0, (0, 0, 1, 0)),
-    ("plainhttps_colonkey_expl", shape("https", (1, 2), 0, 1, 5, 1), (1, 1, 1), 0, None),
     ("xy_frag_expl_id", shape("xy", (1, 1), 0, 2, 0, 3, 0, 2), (1, 0, 0), 0, (1, 1, 0, 0)),
 ]
 S_THOROUGH = S_QUICK + [
+    ("ksi_v6_emptyuser", shape("ksi", (0, 1), 2, 3, 4, 2, 0, 1), (0, 0, 1), 0, None),
+    ("tcp_v6_ui_expl_id", shape("ksi+tcp", (1, 1), 2, 3, 1, 0), (1, 0, 0), 0, None),
+    ("file_path_ext", shape("file", None, 3, 0, 0, 2), (0, 0, 1), 0, None),
+    ("plainhttps_colonkey_expl", shape("https", (1, 2), 0, 1, 5, 1), (1, 1, 1), 0, None),
     ("long_ksihttps", shape("ksi+https", (3, 3), 0, 5, 5, 5, 3, 3), (0, 0, 0), 1, (0, 0, 0, 0)),
     ("long_tcp_v6", shape("ksi+tcp", (2, 3), 2, 7, 5, 0), (0, 2, 1), 1, (0, 0, 1, 1)),
     ("ksi_quad_noport_query", shape("ksi", (1, 1), 1, 0, 0, 0, 2, 0), (0, 0, 0), 1, None),
@@ -114,7 +114,7 @@ h3 = {
 }
 h4 = {
     "name": "h4_async", "src": "h4_async.c",
-    "env": ["c20_ctx", "c20_strtoul", "c20_libc", "c20_vsnprintf"],
+    "env": ["c20_ctx", "c20_strtoul", "c20_libc", "c20_vsnprintf"], "env_defines": ["C20_TYPED_ASYNC_SERVICE=1"],
     "tus": ["net_async", "http_parser", "compatibility"],
     "unwind": 40, "timeout": 400, "mem_gb": 8, "object_bits": 10, "cbmc_flags": SLICE,
     "functions": ["KSI_SigningAsyncService_new", "KSI_ExtendingAsyncService_new", "KSI_AsyncService_setEndpoint", "KSI_AsyncService_addEndpoint", "asyncService_setupAsyncClient",
